@@ -144,6 +144,7 @@ def explore(ctx):
     compile_level(ctx)
     default_switch_section(ctx)
     sparse_master_section(ctx)
+    notdef_option_section(ctx)
     variable_section(ctx)
 
 
@@ -354,6 +355,57 @@ def sparse_master_section(ctx):
             ctx.spec_failure(dict(case, names_on=on, names_off=off),
                              "with production names on the masters are named %r: the sparse master's glyphs should be called %r like in the full masters" % (
                                  on, [want[n] for n in off["master.Medium"]]))
+
+
+def notdef_option_section(ctx):
+    """a font without a '.notdef' of its own, compiled with a glyph handed in through the notdefGlyph option -- a glyph object
+    that has a name (and possibly a code point) of its own: glyph 0 is '.notdef' with production names on and off, the font
+    saves, and nothing but the name carriers differs between the two (F45)"""
+    import ufo2ft
+    from fontTools.ttLib import TTFont
+    tri = lambda k: [[(0, 0, "line"), (100 + k, 0, "line"), (50, 100, "line")]]
+    for i in range(ctx.budget(12, 24)):
+        lib = ["ufoLib2", "defcon"][i % 2]
+        flavor, kw = [("ttf", {}), ("otf", {"cffVersion": 1}), ("otf", {"cffVersion": 2})][(i // 2) % 3]
+        nd_name, nd_uni = [("box", []), ("missing", []), ("a.alt", []), ("f_i.alt", [])][(i // 6) % 4]   # (no code point: one would name it uniXXXX by the rule)
+        glyphs = [{"name": n, "width": 500, "unicodes": [u] if u else [], "contours": tri(k)}
+                  for k, (n, u) in enumerate([("space", 0x20), ("a", 0x61), ("f", 0x66), ("i", 0x69), ("f_i", None)])]
+        desc = {"glyphs": glyphs, "lib": {}, "kerning": {("a", "f"): -20}, "features": "feature liga { sub f i by f_i; } liga;",
+                "glyphOrder": [g["name"] for g in glyphs]}
+        nd_desc = {"glyphs": [{"name": nd_name, "width": 600, "unicodes": nd_uni,
+                               "contours": [[(50, 0, "line"), (550, 0, "line"), (550, 700, "line"), (50, 700, "line")]]}], "lib": {}, "kerning": {}, "features": ""}
+        comp = ufo2ft.compileTTF if flavor == "ttf" else ufo2ft.compileOTF
+        case = {"font": jsonable(desc), "lib": lib, "flavor": flavor, "options": kw, "notdefGlyph": jsonable(nd_desc["glyphs"][0])}
+        ctx.count(); ctx.klass("notdefGlyph option: %s%s, glyph named %r" % (flavor, kw.get("cffVersion", ""), nd_name)); ctx.nontriv(("ndopt", i, ctx.scale))
+        try:
+            fonts = []
+            for upn in (True, False):
+                ndf = build_font(nd_desc, lib)          # (kept alive: a defcon glyph knows its layer only while the font lives)
+                nd = ndf[nd_name]
+                tt = comp(build_font(desc, lib), useProductionNames=upn, notdefGlyph=nd, **kw)
+                buf = io.BytesIO(); tt.save(buf); buf.seek(0)
+                fonts.append(TTFont(buf))
+        except Exception as e:
+            ctx.spec_failure(case, "compile + save with a notdefGlyph option raised %s: %s\n%s" % (type(e).__name__, e, traceback.format_exc()[-1000:]))
+            continue
+        on, off = fonts
+        for what, f in (("on", on), ("off", off)):
+            o = f.getGlyphOrder()
+            if o[0] != ".notdef" or len(o) != len(glyphs) + 1 or len(set(o)) != len(o):
+                ctx.spec_failure(dict(case, names=o), "with production names %s the glyph order is %r: glyph 0 must be '.notdef' (the glyph handed in as "
+                                 "notdefGlyph, whatever it is called), followed by the %d glyphs of the font" % (what, o, len(glyphs)))
+        if on.getGlyphOrder()[1:] != ["uni0020", "uni0061", "uni0066", "uni0069", "uni00660069"] or off.getGlyphOrder()[1:] != ["space", "a", "f", "i", "f_i"]:
+            ctx.spec_failure(dict(case, names=on.getGlyphOrder()), "final names %r" % on.getGlyphOrder())
+        if "cmap" in on and any(n not in on.getGlyphOrder() for n in on.getBestCmap().values()):
+            ctx.spec_failure(dict(case, cmap=jsonable(on.getBestCmap())), "the character map refers to %r" % on.getBestCmap())
+        for tag in on.reader.keys():
+            if tag in ("post", "CFF ", "CFF2"):
+                continue
+            a, b = on.reader[tag], off.reader[tag]
+            if tag == "head":
+                a, b = a[:8] + b"\0\0\0\0" + a[12:], b[:8] + b"\0\0\0\0" + b[12:]
+            if a != b:
+                ctx.spec_failure(case, "table %r differs between useProductionNames=True and False" % tag)
 
 
 def compile_level(ctx):
